@@ -53,6 +53,9 @@ def main(argv=None):
         jobs = [j for j in jobs if only in j.name]
     replay_dir = os.path.join(env.VERIF, "replays", prop)
     os.makedirs(replay_dir, exist_ok=True)
+    if os.environ.get("VERIF_NOEVIDENCE"):
+        replay_dir = os.path.join("/tmp/verif_replays", prop)
+        os.makedirs(replay_dir, exist_ok=True)
     if not only:
         for fn in os.listdir(replay_dir):
             if fn.endswith(".json"):
@@ -170,7 +173,7 @@ def finish(mod, prop, tier, seed, results, t0, partial=False):
     ev = dict(property_id=prop, tier=tier, seed=seed, level=level, coverage=coverage,
               assumptions=list(getattr(mod, "ASSUMPTIONS", [])) + env.STUBS,
               wall_s=round(wall, 2), violations=len(violations))
-    if not partial:
+    if not partial and not os.environ.get("VERIF_NOEVIDENCE"):
         os.makedirs(os.path.join(env.VERIF, "evidence"), exist_ok=True)
         with open(os.path.join(env.VERIF, "evidence", "%s.json" % prop), "w") as f:
             json.dump(ev, f, indent=1, default=str)
